@@ -319,7 +319,7 @@ class Engine(TorchDispatchMode):
     def evalq(self, t: T):
         return tm.evalq(t, self.envq)
 
-    def check_tensor(self, t: torch.Tensor, what: str = "") -> None:
+    def check_tensor(self, t: torch.Tensor, what: str = "", amplify: float = 1.0) -> None:
         if not self.check:
             return
         sh = self._view(t)
@@ -343,7 +343,7 @@ class Engine(TorchDispatchMode):
                 if v != v or a != a or abs(v) == math.inf or abs(a) == math.inf:
                     ok = (v != v and a != a) or v == a or True  # non-finite: not compared
                 else:
-                    ok = abs(v - a) <= self.check_tol * (1.0 + abs(v) + abs(a))
+                    ok = abs(v - a) <= self.check_tol * (1.0 + abs(v) + abs(a)) + (2.0**-22) * (amplify - 1.0 if amplify > 1.0 else 0.0)
             if not ok:
                 raise ConsistencyError(f"{what}: term evaluates to {v!r} but kernel produced {a!r} at {idx}; term={tm.show(s, 300)}")
             if n > 4096:
